@@ -850,7 +850,13 @@ func (e *Exec) siteAsserts(ins ssa.Instruction, callee string, args []Value, st 
 		}
 		if sa.LetName != "" && sa.IntVal {
 			// remembered integer: path-sensitive ghost, 0 until defined
-			st.ghost["let:"+sa.LetName] = e.toI64(env.eval(sa.Clause.Expr))
+			switch rv := env.eval(sa.Clause.Expr).(type) {
+			case IfaceV, PtrV, FuncV:
+				// a remembered reference: its identity
+				st.ghost["let:"+sa.LetName] = e.scalarOf(rv)
+			default:
+				st.ghost["let:"+sa.LetName] = e.toI64(rv)
+			}
 			continue
 		}
 		if sa.LetName != "" {
